@@ -14,7 +14,7 @@ from collections import OrderedDict
 from chx.instrument import FUEL, FuelExhausted, instrument_fuel
 from chx.ob import BOOL, CP, PR, R, U, ob
 from harness.shims import ADHOC_SHIMS_DOC
-from harness.skeletons import SKELETONS
+from harness.skeletons import EDGE_SKELETONS, SKELETONS
 
 SEED = int(os.environ.get("VERIF_SEED", "0") or 0)
 
@@ -204,6 +204,34 @@ for _i, (_style, _pos, _mode, _doc) in enumerate(_ALL):
        bound="%s skeleton (%d chars) %s at offset %d with ANY code point" % (
            _style, len(_doc), {"ins": "insertion", "sub": "substitution", "cut": "truncated, then one character"}[_mode], _pos),
        )(_split_pert(_doc, _pos, _mode))
+
+
+def _edge(doc, where):
+    def body(c):
+        ch = chr(c)
+        d = (doc + ch) if where == "append" else (doc[:-1] + ch if where == "last" else ch + doc)
+        r = fueled(len(d), lambda: _du.parse_docstring_into_header_args_footer(d, d))
+        if r:
+            return r
+        import cdd.shared.docstring_parsers as dp
+
+        def emit_after_parse():
+            ir = dp.parse_docstring(d)
+            ir.setdefault("_internal", {})["original_doc_str"] = d
+            for style in ("rest", "google", "numpydoc"):
+                _emit.docstring(ir, docstring_format=style, word_wrap=False)
+
+        return fueled(len(d) + 64, emit_after_parse)
+
+    return body
+
+
+for _name, _doc in EDGE_SKELETONS.items():
+    for _where in ("append", "last", "prepend"):
+        ob("C11", "edge.%s.%s" % (_name, _where), {"c": CP}, tier="quick", T=200,
+           funcs=["cdd.shared.docstring_utils.parse_docstring_into_header_args_footer", "cdd.shared.docstring_parsers.parse_docstring", "cdd.docstring.emit.docstring"],
+           bound="edge docstring %r with ANY code point %s; split, then parse and re-emit in all three styles carrying the original docstring" % (
+               _doc, {"append": "appended", "last": "replacing the last character", "prepend": "prepended"}[_where]))(_edge(_doc, _where))
 
 
 # ---------------------------------------------------------------------------------- ad-hoc type guesser
